@@ -265,27 +265,26 @@ Example nested_union_witness :
   p_ext (nper_size_row TOctetString (npullup false [[NRoot (NUnion a b)]])) = true.
 Proof. vm_compute. repeat split. Qed.
 
-(* the un-parenthesised  SEQUENCE SIZE(1..10,...) OF  spelling: the marker is lost
-   (asn1constraint_pullup calls _remove_extensions with forgive_last on a node
-   that is not a CA_SET) *)
-Lemma bare_size_marker_refuted : exists chain,
+(* the un-parenthesised  SEQUENCE SIZE(...) OF  spelling: asn1constraint_pullup
+   makes the bare SizeConstraint the single element of a serial set, which is
+   what the parser builds for the parenthesised spelling; so the two spellings
+   have the same combined constraint along every chain of references (marker
+   kept, no two-element SIZE node: no assert) *)
+Lemma wrap_set_parse_nconstraint : forall s, wrap_set (parse_nconstraint s) = parse_nconstraint s.
+Proof. intros s. unfold parse_nconstraint, cinsert. destruct (as_set (parse_nspec s)); reflexivity. Qed.
+Lemma bare_size_same : forall s rest,
+  npullup true ([NRoot (NSize s)] :: rest) = npullup false ([NRoot (NSize s)] :: rest).
+Proof. intros s rest. reflexivity. Qed.
+(* the two witnesses of the former defect, on the repaired model *)
+Example bare_size_marker_kept :
+  let chain := [[NRoot (NSize (SExt (ERange (BInt 1) (BInt 10))))]] in
   e_empty (nper_effective chain) = false /\
-  nper_size_row TSequenceOf (npullup false chain) = tables_of (nper_effective chain) /\
-  nper_size_row TSequenceOf (npullup true chain) <> tables_of (nper_effective chain).
-Proof.
-  exists [[NRoot (NSize (SExt (ERange (BInt 1) (BInt 10))))]].
-  vm_compute. repeat split; discriminate.
-Qed.
-
-(* ... and a constraint applied to a reference to such a type makes the SIZE
-   node a two-element node: compute's assert(ct->el_count == 1) *)
-Lemma bare_size_child_asserts : exists chain,
-  ncompute_top TSequenceOf (npullup true chain) ReqSize VisNone = TAbort /\
-  exists r, ncompute_top TSequenceOf (npullup false chain) ReqSize VisNone = TOk r.
-Proof.
-  exists [[NRoot (NSize (SRoot (ERange (BInt 1) (BInt 10))))]; [NRoot (NSize (SRoot (ERange (BInt 2) (BInt 3))))]].
-  split; [vm_compute; reflexivity | eexists; vm_compute; reflexivity].
-Qed.
+  nper_size_row TSequenceOf (npullup true chain) = tables_of (nper_effective chain).
+Proof. vm_compute. split; reflexivity. Qed.
+Example bare_size_child_ok :
+  let chain := [[NRoot (NSize (SRoot (ERange (BInt 1) (BInt 10))))]; [NRoot (NSize (SRoot (ERange (BInt 2) (BInt 3))))]] in
+  exists r, ncompute_top TSequenceOf (npullup true chain) ReqSize VisNone = TOk r.
+Proof. eexists. vm_compute. reflexivity. Qed.
 
 (* op_ok is satisfiable: the two SIZE operands of the reported shape, under the
    minmax the SIZE request starts with (0..MAX) *)
